@@ -13,8 +13,8 @@
                                      order (setvar), then expansion of msg; MatchRule for id <> 0
    Everything outside this fragment (other directives, other actions, chains, rules with an operator
    at request time) is reported as [Ok None] ("unmodelled": search only), never silently mapped
-   to ok/error.  mergeActions only adds the built-in defaults log, auditlog, pass (their Init cannot
-   fail and they do not touch the observables) and is not modelled.  No proofs here. *)
+   to ok/error.  SecDefaultAction, ParseDefaultActions, the built-in phase-2 default and mergeActions
+   are modelled (the picked default disruptive action is an option: None = nil F).  No proofs here. *)
 From Coq Require Import String.
 From Verif Require Import Base NoPanic.
 Open Scope Z_scope.
@@ -33,11 +33,12 @@ Record np_crule := {
   cr_msg : option (list np_token); cr_msgtext : option bytes;
   cr_logdata : option (list np_token);
   cr_setvars : list np_setvar;
-  cr_marker : bool; cr_hasop : bool }.
+  cr_marker : bool; cr_hasop : bool;
+  cr_disr : bool   (* carries deny / drop / block: request time leaves the modelled fragment *) }.
 
 Definition np_new_rule : np_crule :=
   {| cr_id := 0; cr_phase := 2; cr_msg := None; cr_msgtext := None; cr_logdata := None;
-     cr_setvars := []; cr_marker := false; cr_hasop := false |}.
+     cr_setvars := []; cr_marker := false; cr_hasop := false; cr_disr := false |}.
 
 Definition bs (s : string) : bytes := str s.
 
@@ -59,34 +60,38 @@ Definition np_action_init (r : np_crule) (key val : bytes) : outcome (option np_
      | None => Err
      | Some i => if i <=? 0 then Err else
        Ok (Some {| cr_id := i; cr_phase := cr_phase r; cr_msg := cr_msg r; cr_msgtext := cr_msgtext r; cr_logdata := cr_logdata r;
-                   cr_setvars := cr_setvars r; cr_marker := cr_marker r; cr_hasop := cr_hasop r |})
+                   cr_setvars := cr_setvars r; cr_marker := cr_marker r; cr_hasop := cr_hasop r; cr_disr := cr_disr r |})
      end)
   else if bytes_eqb key (bs "phase") then
     (if np_len val =? 0 then Err else
      match np_parse_phase val with
      | None => Err
      | Some p => Ok (Some {| cr_id := cr_id r; cr_phase := p; cr_msg := cr_msg r; cr_msgtext := cr_msgtext r; cr_logdata := cr_logdata r;
-                             cr_setvars := cr_setvars r; cr_marker := cr_marker r; cr_hasop := cr_hasop r |})
+                             cr_setvars := cr_setvars r; cr_marker := cr_marker r; cr_hasop := cr_hasop r; cr_disr := cr_disr r |})
      end)
   else if bytes_eqb key (bs "msg") then
     (do! d <- np_maybe_remove_quotes val;
      if np_len d =? 0 then Err else
      do! m <- np_new_macro d;
      Ok (Some {| cr_id := cr_id r; cr_phase := cr_phase r; cr_msg := Some m; cr_msgtext := Some d; cr_logdata := cr_logdata r;
-                 cr_setvars := cr_setvars r; cr_marker := cr_marker r; cr_hasop := cr_hasop r |}))
+                 cr_setvars := cr_setvars r; cr_marker := cr_marker r; cr_hasop := cr_hasop r; cr_disr := cr_disr r |}))
   else if bytes_eqb key (bs "logdata") then
     (if np_len val =? 0 then Err else
      do! m <- np_new_macro val;
      Ok (Some {| cr_id := cr_id r; cr_phase := cr_phase r; cr_msg := cr_msg r; cr_msgtext := cr_msgtext r; cr_logdata := Some m;
-                 cr_setvars := cr_setvars r; cr_marker := cr_marker r; cr_hasop := cr_hasop r |}))
+                 cr_setvars := cr_setvars r; cr_marker := cr_marker r; cr_hasop := cr_hasop r; cr_disr := cr_disr r |}))
   else if bytes_eqb key (bs "tag") then
     (if np_len val =? 0 then Err else Ok (Some r))
   else if existsb (fun n => bytes_eqb key (str n)) np_flag_actions then
     (if 0 <? np_len val then Err else Ok (Some r))
+  else if existsb (fun n => bytes_eqb key (str n)) ["deny"; "drop"; "block"]%string then
+    (if 0 <? np_len val then Err else
+     Ok (Some {| cr_id := cr_id r; cr_phase := cr_phase r; cr_msg := cr_msg r; cr_msgtext := cr_msgtext r; cr_logdata := cr_logdata r;
+                 cr_setvars := cr_setvars r; cr_marker := cr_marker r; cr_hasop := cr_hasop r; cr_disr := true |}))
   else if bytes_eqb key (bs "setvar") then
     (do! sv <- np_setvar_init val;
      Ok (Some {| cr_id := cr_id r; cr_phase := cr_phase r; cr_msg := cr_msg r; cr_msgtext := cr_msgtext r; cr_logdata := cr_logdata r;
-                 cr_setvars := cr_setvars r ++ [sv]; cr_marker := cr_marker r; cr_hasop := cr_hasop r |}))
+                 cr_setvars := cr_setvars r ++ [sv]; cr_marker := cr_marker r; cr_hasop := cr_hasop r; cr_disr := cr_disr r |}))
   else Ok None.   (* a registered action whose Init is not modelled *)
 
 Fixpoint np_apply_actions (r : np_crule) (acts : list np_raction) : outcome (option np_crule) :=
@@ -95,19 +100,94 @@ Fixpoint np_apply_actions (r : np_crule) (acts : list np_raction) : outcome (opt
   | a :: t => do? r' <- np_action_init r (ra_key a) (ra_val a); np_apply_actions r' t
   end.
 
+(* ---- SecDefaultAction: ParseDefaultActions, the built-in phase-2 default, mergeActions ---- *)
+Definition np_metadata_names : list string := ["id"; "phase"; "msg"; "tag"; "rev"; "ver"; "severity"; "maturity"]%string.
+Definition np_is_metadata (key : bytes) : bool := existsb (fun n => bytes_eqb key (str n)) np_metadata_names.
+
+(* the loop of ParseDefaultActions: (phase, a disruptive action was seen) *)
+Fixpoint np_pda_loop (acts : list np_raction) (phase : Z) (hasdis : bool) : outcome (Z * bool) :=
+  match acts with
+  | [] => Ok (phase, hasdis)
+  | a :: t =>
+    if bytes_eqb (ra_key a) (bs "phase") then
+      match np_parse_phase (ra_val a) with None => Err | Some p => np_pda_loop t p hasdis end
+    else if np_is_metadata (ra_key a) then Err
+    else if bytes_eqb (ra_key a) (bs "t") then Err
+    else np_pda_loop t phase (hasdis || ra_disr a)
+  end.
+
+Definition np_parse_default (raw : bytes) : outcome (Z * list np_raction) :=
+  do! acts <- np_parse_actions raw;
+  do! ph <- np_pda_loop acts 0 false;
+  if fst ph =? 0 then Err else if negb (snd ph) then Err else Ok (fst ph, acts).
+
+Definition np_defmap := list (Z * list np_raction).
+
+(* ParseRule re-parses every SecDefaultAction seen so far; a second one for the same phase is an error *)
+Fixpoint np_defaults_build (dl : list bytes) (m : np_defmap) : outcome np_defmap :=
+  match dl with
+  | [] => Ok m
+  | raw :: t => do! pa <- np_parse_default raw;
+                if existsb (fun e => fst e =? fst pa) m then Err else np_defaults_build t (m ++ [pa])
+  end.
+
+(* parseActions "phase:2,log,auditlog,pass" *)
+Definition np_builtin_default : list np_raction :=
+  [ {| ra_key := bs "phase"; ra_val := bs "2"; ra_disr := false |}; {| ra_key := bs "log"; ra_val := []; ra_disr := false |};
+    {| ra_key := bs "auditlog"; ra_val := []; ra_disr := false |}; {| ra_key := bs "pass"; ra_val := []; ra_disr := true |} ].
+
+Definition np_defaults (dl : list bytes) : outcome np_defmap :=
+  do! m <- np_defaults_build dl [];
+  Ok (if existsb (fun e => fst e =? 2) m then m else m ++ [(2, np_builtin_default)]).
+
+Fixpoint np_defmap_find (p : Z) (m : np_defmap) : option (list np_raction) :=
+  match m with [] => None | (q, a) :: t => if q =? p then Some a else np_defmap_find p t end.
+
+(* `var da ruleAction` ... `da = action`: None is the zero value (F == nil) *)
+Fixpoint np_last_disr (l : list np_raction) (acc : option np_raction) : option np_raction :=
+  match l with [] => acc | a :: t => np_last_disr t (if ra_disr a then Some a else acc) end.
+
+Definition np_is_block (a : np_raction) : bool := ra_disr a && bytes_eqb (ra_key a) (bs "block").
+
+(* mergeActions: an element None is a ruleAction whose F is nil *)
+Definition np_merge (origin defaults : list np_raction) : list (option np_raction) :=
+  let res0 := filter (fun a => negb (ra_disr a) && negb (np_is_metadata (ra_key a))) defaults in
+  let da := np_last_disr defaults None in
+  let has := existsb (fun a => ra_disr a && negb (np_is_block a)) origin in
+  map Some res0 ++ map Some (filter (fun a => negb (np_is_block a)) origin) ++ (if has then [] else [da]).
+
+(* the second loop of applyParsedActions: action.F.Init on every non-metadata action *)
+Fixpoint np_apply_merged (r : np_crule) (l : list (option np_raction)) : outcome (option np_crule) :=
+  match l with
+  | [] => Ok (Some r)
+  | None :: _ => Panic                      (* nil F *)
+  | Some a :: t =>
+    if np_is_metadata (ra_key a) then np_apply_merged r t
+    else (do? r' <- np_action_init r (ra_key a) (ra_val a); np_apply_merged r' t)
+  end.
+
+(* applyParsedActions: metadata actions first, then the merge with the defaults of the rule's phase *)
+Definition np_apply_parsed (defs : np_defmap) (r : np_crule) (acts : list np_raction) : outcome (option np_crule) :=
+  do? r1 <- np_apply_actions r (filter (fun a => np_is_metadata (ra_key a)) acts);
+  np_apply_merged r1 (match np_defmap_find (cr_phase r1) defs with
+                      | Some d => np_merge acts d
+                      | None => map Some acts
+                      end).
+
 (* RuleParser.ParseActions *)
-Definition np_compile_actions (r : np_crule) (text : bytes) : outcome (option np_crule) :=
-  do! acts <- np_parse_actions text; np_apply_actions r acts.
+Definition np_compile_actions (defs : np_defmap) (r : np_crule) (text : bytes) : outcome (option np_crule) :=
+  do! acts <- np_parse_actions text; np_apply_parsed defs r acts.
 
 (* operators whose constructor cannot fail on a non-empty macro-free argument *)
 Definition np_safe_operators : list string :=
   ["unconditionalMatch"; "noMatch"; "streq"; "contains"; "beginsWith"; "endsWith"; "strmatch"; "within"]%string.
 
 (* ParseRule *)
-Definition np_parse_rule (with_op : bool) (data : bytes) : outcome (option np_crule) :=
+Definition np_parse_rule (dl : list bytes) (with_op : bool) (data : bytes) : outcome (option np_crule) :=
   match np_trim_space data with
   | [] => Err
   | _ =>
+    do! defs <- np_defaults dl;
     if with_op then
       do! pao <- np_parse_action_operator data;
       let '(vars, op, acts) := pao in
@@ -120,11 +200,11 @@ Definition np_parse_rule (with_op : bool) (data : bytes) : outcome (option np_cr
       then Ok None
       else
         let r := {| cr_id := 0; cr_phase := 2; cr_msg := None; cr_msgtext := None; cr_logdata := None;
-                    cr_setvars := []; cr_marker := false; cr_hasop := true |} in
-        (if np_len acts =? 0 then Ok (Some r) else np_compile_actions r acts)
+                    cr_setvars := []; cr_marker := false; cr_hasop := true; cr_disr := false |} in
+        (if np_len acts =? 0 then Ok (Some r) else np_compile_actions defs r acts)
     else
       do! raw <- np_maybe_remove_quotes data;
-      np_compile_actions np_new_rule raw
+      np_compile_actions defs np_new_rule raw
   end.
 
 (* RuleGroup.Add: the id is optional, a non-zero id must be unique *)
@@ -159,7 +239,11 @@ Definition np_rules_delete_by_msg (rules : list np_crule) (msg : bytes) : outcom
   Ok (filter (fun r => match cr_msgtext r with None => true | Some m => negb (bytes_eqb m msg) end) rules).
 
 (* Parser.evaluateLine *)
-Definition np_evaluate_line (rules : list np_crule) (l : bytes) : outcome (option (list np_crule)) :=
+Definition np_cstate := (list np_crule * list bytes)%type.   (* rules, raw SecDefaultAction arguments *)
+
+Definition np_evaluate_line (st : np_cstate) (l : bytes) : outcome (option np_cstate) :=
+  let '(rules, dl) := st in
+  let withr (o : outcome (list np_crule)) : outcome (option np_cstate) := np_lift (do! x <- o; Ok (x, dl)) in
   if np_len l =? 0 then Err else
   do! c0 <- np_at l 0;
   if isb c0 35 then Err else
@@ -172,16 +256,18 @@ Definition np_evaluate_line (rules : list np_crule) (l : bytes) : outcome (optio
   if negb (existsb (fun n => bytes_eqb d (str n)) np_known_directives) then Err
   else if bytes_eqb d (bs "secaction") then
     (if np_len opts =? 0 then Err else
-     do? r <- np_parse_rule false opts; np_lift (np_rules_add rules r))
+     do? r <- np_parse_rule dl false opts; withr (np_rules_add rules r))
   else if bytes_eqb d (bs "secrule") then
     (if np_len opts =? 0 then Err else
-     do? r <- np_parse_rule true opts; np_lift (np_rules_add rules r))
+     do? r <- np_parse_rule dl true opts; withr (np_rules_add rules r))
   else if bytes_eqb d (bs "secmarker") then
     (if np_len opts =? 0 then Err else
-     np_lift (np_rules_add rules {| cr_id := 0; cr_phase := 0; cr_msg := None; cr_msgtext := None; cr_logdata := None;
-                                    cr_setvars := []; cr_marker := true; cr_hasop := false |}))
+     withr (np_rules_add rules {| cr_id := 0; cr_phase := 0; cr_msg := None; cr_msgtext := None; cr_logdata := None;
+                                    cr_setvars := []; cr_marker := true; cr_hasop := false; cr_disr := false |}))
   else if bytes_eqb d (bs "secruleremovebymsg") then
-    (if np_len opts =? 0 then Err else np_lift (np_rules_delete_by_msg rules opts))
+    (if np_len opts =? 0 then Err else withr (np_rules_delete_by_msg rules opts))
+  else if bytes_eqb d (bs "secdefaultaction") then
+    (if np_len opts =? 0 then Err else Ok (Some (rules, dl ++ [opts])))
   else Ok None.   (* a directive whose handler is not modelled *)
 
 (* bufio.ScanLines: split at LF, drop one trailing CR *)
@@ -197,8 +283,8 @@ Definition np_drop_cr (l : bytes) : bytes :=
 Definition np_drop_last (l : bytes) : bytes := rev (tl (rev l)).
 
 (* Parser.parseString: the loop over scanner lines; state = (line buffer, inside backticks) *)
-Fixpoint np_parse_lines (lines : list bytes) (buf : bytes) (inbt : bool) (rules : list np_crule)
-  : outcome (option (list np_crule)) :=
+Fixpoint np_parse_lines (lines : list bytes) (buf : bytes) (inbt : bool) (rules : np_cstate)
+  : outcome (option np_cstate) :=
   match lines with
   | [] => if inbt then Err else Ok (Some rules)
   | raw :: rest =>
@@ -218,7 +304,7 @@ Fixpoint np_parse_lines (lines : list bytes) (buf : bytes) (inbt : bool) (rules 
 
 (* NewWAF(...WithDirectives(text)) for the modelled fragment *)
 Definition np_compile_config (text : bytes) : outcome (option (list np_crule)) :=
-  np_parse_lines (np_split_lines text []) [] false [].
+  do? st <- np_parse_lines (np_split_lines text []) [] false ([], []); Ok (Some (fst st)).
 
 (* ------------------------------------------------------------------------------------ *)
 (* request time                                                                         *)
@@ -253,7 +339,7 @@ Definition np_run_rule (base : np_tx) (r : np_crule) (st : np_kv * list (Z * byt
   : outcome (option (np_kv * list (Z * bytes))) :=
   let '(kv, log) := st in
   if cr_marker r then Ok (Some st)
-  else if cr_hasop r then Ok None
+  else if cr_hasop r || cr_disr r then Ok None
   else
     do! kv' <- np_run_setvars base (cr_setvars r) kv;
     do! m <- (match cr_msg r with None => Ok [] | Some toks => np_expand true (np_tx_with base kv') toks end);
